@@ -273,7 +273,7 @@ func genC08(seed uint64, run int, tier string) *Plan {
 	p.Cfg.ExpireMs = 24 * 3600 * 1000 // time advances by days: keep expiry ticks rare
 	tp := TaskPlan{Name: "client"}
 	tp.Ops = append(tp.Ops, g.seedOps(70)...)
-	n := 2 + r.IntN(14)
+	n := deepen(tier, seed, 2+r.IntN(14))
 	for i := 0; i < n; i++ {
 		op := g.crud()
 		if op.TTL != nil {
